@@ -69,6 +69,13 @@ GROUPS = [
              ("length", 0, "rs_range_length"),
              ("equals_range", 0, "rs_range_equals_range"),
              ("is_in", 0, "rs_range_is_in")]},
+    {"name": "RsSpan", "file": "starlark_syntax/src/codemap.rs", "imports": [],
+     "cfg": {"self_type": "Span", "self_name": "Span",
+             "typed_receivers": {"Span": {"contains": "rs_span_contains"}}},
+     "fns": [("merge", r"impl Span \{", "rs_span_merge"),
+             ("end_span", r"impl Span \{", "rs_span_end_span"),
+             ("contains", r"impl Span \{", "rs_span_contains"),
+             ("intersects", r"impl Span \{", "rs_span_intersects", {"span": "Span"})]},
     {"name": "RsConv", "file": "starlark_syntax/src/convert_indices.rs", "imports": [],
      "cfg": {},
      "fns": [("bound", 0, "rs_bound"),
